@@ -293,7 +293,16 @@ def random_groups(rng, d):
 def random_config(rng, name, n, d, K=None, max_iter=None, nonneg=False, allow_precomputed=True,
                   allow_callable=True, gemini=None):
     """Random valid configuration (documented domains) for estimator `name` on (n, d) data.
-    Returns (params, needs_precomputed: None|'kernel'|'metric')."""
+    Returns (params, needs_precomputed: None|'kernel'|'metric').  One configuration in eight runs with verbose=True:
+    messages are a hyperparameter like any other and must not change what is computed (shard output goes to a log)."""
+    p, pre = _random_config(rng, name, n, d, K, max_iter, nonneg, allow_precomputed, allow_callable, gemini)
+    if rng.random() < 0.125:
+        p["verbose"] = True
+    return p, pre
+
+
+def _random_config(rng, name, n, d, K=None, max_iter=None, nonneg=False, allow_precomputed=True,
+                   allow_callable=True, gemini=None):
     K = int(K if K is not None else rng.integers(2, min(4, n) + 1))
     p = {"random_state": subseed(rng) % 100000}
     pre = None
